@@ -61,8 +61,30 @@ def install():
     _installed[0] = True
 
 
+def core_cases():
+    """histories in which the slot a waiter needs is freed by an abandoned request, or the notified waiter goes away"""
+    A = {'start': 0, 'dur': 40, 'fail': 0, 'timeout': 5.0, 'bp': False, 'cancel_after': None}
+    W = {'start': 5, 'dur': 5, 'fail': 0, 'timeout': 5.0, 'bp': False, 'cancel_after': None}
+    out = []
+    for kind in ('async-thread', 'sync-thread', 'async-process'):
+        # A is abandoned by its timeout; the waiter B needs the slot A's late result frees
+        out.append({'kind': kind, 'capacity': 1, 'workers': 1, 'callers': [dict(A, timeout=0.02), dict(W)]})
+    # the same with A's calling task cancelled
+    out.append({'kind': 'async-thread', 'capacity': 1, 'workers': 1, 'callers': [dict(A, cancel_after=10), dict(W)]})
+    # two waiters; the first one's caller goes away in the very loop iteration in which A's result is delivered
+    out.append({'kind': 'async-thread', 'capacity': 1, 'workers': 1,
+                'callers': [dict(A), dict(W, cancel_on_done_of=0), dict(W, start=10)]})
+    # ... or its patience runs out at about that time
+    out.append({'kind': 'async-thread', 'capacity': 1, 'workers': 1,
+                'callers': [dict(A), dict(W, timeout=0.0405), dict(W, start=10)]})
+    return out
+
+
 def gen_case(rng, idx):
-    kind = ['async-thread', 'sync-process', 'async-process'][idx % 3] if idx < 6 else rng.choice(
+    core = core_cases()
+    if idx < len(core):
+        return core[idx]
+    kind = ['async-thread', 'sync-process', 'async-process'][idx % 3] if idx < 9 else rng.choice(
         ['async-thread', 'async-thread', 'async-thread', 'sync-process', 'async-process', 'sync-thread'])
     cap = rng.choice([1, 1, 2, 3])
     ncall = rng.choice([2, 4, 6, 9])
@@ -129,6 +151,9 @@ def run_async(c):
                 tasks.append(t)
                 if s['cancel_after'] is not None:
                     loop.call_later((s['start'] + s['cancel_after']) / 1000, t.cancel)
+            for i, s in enumerate(c['callers']):
+                if s.get('cancel_on_done_of') is not None:
+                    tasks[s['cancel_on_done_of']].add_done_callback(lambda _, t=tasks[i]: t.cancel())
             await asyncio.gather(*tasks, return_exceptions=True)
             res['outs'] = outs
             t0 = time.monotonic()
@@ -252,7 +277,7 @@ def oracle(c, o):
             need_acc += 1
             if r[-1] > s['timeout'] + 0.5:
                 return f"{tag}: caller {i} got TimeoutError after {r[-1]} s with timeout {s['timeout']}"
-        if s['timeout'] >= 5 and s['cancel_after'] is None and r[0] in ('timeout', 'rejected') and not (s['bp'] and r[0] == 'rejected'):
+        if s['timeout'] >= 5 and s['cancel_after'] is None and s.get('cancel_on_done_of') is None and r[0] in ('timeout', 'rejected') and not (s['bp'] and r[0] == 'rejected'):
             return f'{tag}: caller {i} with a 5 s timeout ended with {r} although all the work takes well under a second'
     n_acc_main = sum(1 for e in o['log'][:o['n_log_main']] if e == ACC)
     if n_acc_main < need_acc or n_acc_main > len(c['callers']) - nrej:
